@@ -52,3 +52,15 @@ Proof. intros H. destruct (seq_map_refines ops H) as [[I _] _]. apply sm_bounds_
 
 Lemma skipset_reachable ops : sheights_pos ops -> sm_bounds (fst (run skipset_step sm0 ops)).
 Proof. intros H. destruct (seq_set_refines ops H) as [[I _] _]. apply sm_bounds_inv. apply I. Qed.
+
+Lemma sm_los_cost_inv k h s : hts_ok (hl s) (nodes s) ->
+  SM.los_cost k h s <= SM.lane_bound s + SM.lane_bound (randomlevel h s).
+Proof.
+  intros H. unfold SM.los_cost. destruct (sm_cost_inv k s H) as (_ & B & _).
+  destruct (sm_store_cost_inv k h s H) as (_ & C). destruct (hl s <? h); lia.
+Qed.
+
+Lemma skipmap_los_reachable ops : mheights_pos ops -> forall k h,
+  let s := fst (run skipmap_step sm0 ops) in
+  SM.los_cost k h s <= SM.lane_bound s + SM.lane_bound (randomlevel h s).
+Proof. intros H k h s. destruct (seq_map_refines ops H) as [[I _] _]. apply sm_los_cost_inv. apply I. Qed.
